@@ -43,6 +43,11 @@ func New[T any](ctx context.Context, cap int) (<-chan T, chan<- T) {
 		for {
 			select {
 			case <-ctx.Done():
+				// sends that have completed are still in the buffer of the send side
+				for n := len(in); n > 0; n-- {
+					x := <-in
+					enq(&x, mq)
+				}
 				for mq.head != nil {
 					eg <- head(mq)
 					deq(mq)
